@@ -40,6 +40,8 @@ func init() {
 		},
 		func(t *vcTrial) { vcRunC06Client(t, true) },
 		func(t *vcTrial) { vcRunC06Client(t, false) },
+		func(t *vcTrial) { vcRunC06Client(t, false) },
+		func(t *vcTrial) { vcRunC06Client(t, false) },
 	}
 }
 
@@ -429,9 +431,27 @@ func vcRunC06Client(t *vcTrial, racing bool) {
 		vcSetPlan(t.Plan)
 		defer vcSetPlan(nil)
 	}
+	peerClosesFirst := !racing && r.chance(40)
+	t.P("peer_closes_before_SetOnRequest", peerClosesFirst)
 	if racing {
 		go peer.Write(p)
 		time.Sleep(time.Duration(r.intn(300)) * time.Microsecond)
+		conn.SetOnRequest(handler)
+	} else if peerClosesFirst {
+		// the peer sends and hangs up before the handler is installed: the buffered input must
+		// still be offered to the handler (and then the connection is torn down)
+		peer.Write(p)
+		peer.Close()
+		mark := vcTraceMark() - 64
+		dl := time.Now().Add(5 * time.Second)
+		for (conn.Reader().Len() < n || conn.IsActive()) && time.Now().Before(dl) {
+			time.Sleep(50 * time.Microsecond)
+		}
+		_ = mark
+		if conn.Reader().Len() < n || conn.IsActive() {
+			t.Inconclusive("data/hang-up did not arrive")
+			return
+		}
 		conn.SetOnRequest(handler)
 	} else {
 		peer.Write(p)
@@ -452,7 +472,10 @@ func vcRunC06Client(t *vcTrial, racing bool) {
 	}
 	if got := atomic.LoadUint64(&consumed); got < uint64(n) {
 		c := vcInner(conn)
-		if c.isUnlock(processing) && c.inputBuffer.Len() > 0 && got+uint64(c.inputBuffer.Len()) == uint64(n) && vcRunnerProgress(5, 5*time.Second) {
+		if peerClosesFirst && atomic.LoadInt32(&inv) == 0 && vcRunnerProgress(5, 5*time.Second) {
+			t.Violate("C06", "stranded_input", "SetOnRequest on a client connection whose peer had sent %d bytes and closed before the handler was installed: the handler was never invoked (consumed %d, %d still buffered), runner canary tasks completed meanwhile", n, got, c.inputBuffer.Len())
+		}
+		if !t.Violated() && c.isUnlock(processing) && c.inputBuffer.Len() > 0 && got+uint64(c.inputBuffer.Len()) == uint64(n) && vcRunnerProgress(5, 5*time.Second) {
 			time.Sleep(20 * time.Millisecond)
 			if c.isUnlock(processing) && atomic.LoadUint64(&consumed) == got {
 				t.Violate("C06", "stranded_input", "SetOnRequest on a client connection with %d bytes buffered (racing=%v): handler consumed %d, %d bytes stay buffered, no invocation in progress, lock free", n, racing, got, c.inputBuffer.Len())
@@ -464,5 +487,5 @@ func vcRunC06Client(t *vcTrial, racing bool) {
 	}
 	t.Stat("handler_invocations", int(atomic.LoadInt32(&inv)))
 	t.Nontrivial = true
-	t.Sig = fmt.Sprintf("client-setonrequest|racing=%v|inv=%d", racing, vcMinInt(int(atomic.LoadInt32(&inv)), 3))
+	t.Sig = fmt.Sprintf("client-setonrequest|racing=%v|peerclosed=%v|inv=%d", racing, peerClosesFirst, vcMinInt(int(atomic.LoadInt32(&inv)), 3))
 }
